@@ -34,6 +34,7 @@ def build_world() -> World:
     w.cls("Interp", "BaseInterpreter", "SyncInterpreter", "Interpreter")
     w.cls("Plugin", "PluginBase", "_SafePlugin")
     w.cls("Callable")
+    w.cls("Flag")            # threading.Event used as a cancellation flag
     w.cls("Opaque")
 
     f = w.fld
@@ -82,6 +83,7 @@ def build_world() -> World:
     f("Inv", "on_error", ListSort(Trans))
     f("Inv", "source", Node)
 
+    f("Flag", "is_set", BOOL, mutable=True)
     f("Event", "type", STR)
     f("Event", "kind", INT)
     f("Event", "src", STR)
@@ -101,6 +103,8 @@ def build_world() -> World:
     s("_plugins", ListSort(Plugin))
     s("_subscribers", ListSort(Callable_))
     s("_emit_listeners", DictSort(STR, ListSort(Callable_)))
+    s("_after_events", DictSort(STR, Ref("Flag")))      # sync engine: timer key -> cancellation flag
+    s("_after_threads", DictSort(STR, OPAQUE))
     s("_event_queue", ListSort(Ev))            # collections.deque, modelled as a list (append / popleft / clear)
     # ghost state of C04 (exists only in verification conditions):
     s("g_accepted", ListSort(Ev))              # every event accepted by send()/send_events() while running, in order
@@ -191,6 +195,25 @@ def build_world() -> World:
         # neither raises nor (A-user) writes interpreter-private state.
         if isinstance(recv, Val) and recv.sort == Plugin:
             return [(st, fresh(OPAQUE, "hookret"))]
+        if name == "uuid.uuid4":
+            u = fresh(OPAQUE, "uuid")
+            eng.uuid_terms = getattr(eng, "uuid_terms", []) + [u.z]
+            return [(st, u)]
+        if name == "threading.Event":
+            fl = fresh(Ref("Flag"), "flag")
+            st.assume(fl.z != Ref("Flag").null)
+            arr = st.heap[("Flag", "is_set")]
+            st.assume(z3.Not(z3.Select(arr.t[0], fl.z)))
+            # a new object: not among the values of any modelled flag table
+            for loc, hv in st.heap.items():
+                if isinstance(hv, Val) and isinstance(hv.sort, DictSort) and hv.sort.val == Ref("Flag"):
+                    k = z3.Const("fk", hv.sort.key.z)
+                    st.assume(z3.ForAll([k], z3.Implies(z3.Select(hv.t[2], k), z3.Select(hv.t[3], k) != fl.z)))
+            return [(st, fl)]
+        if name == "threading.Thread":
+            return [(st, fresh(OPAQUE, "thread"))]     # the thread BODY is a concurrent entry point, not executed here (A-seq)
+        if name in ("<Opaque>.start",):
+            return [(st, fresh(OPAQUE, "none"))]
         # A user-supplied callable (subscriber, emit listener, action, guard, service ...):
         # may return anything, may raise any Exception subclass that is not a library error
         # (UserExc), and - assumption A-user - does not write interpreter-private fields.
